@@ -355,6 +355,15 @@ func (l *Lexer) readBlockString(tok *token.Token) {
 
 	for {
 		next := l.readRune()
+		if quoteCount > 0 && next != runes.QUOTE && next != runes.EOF {
+			// the one or two quotes just read did not close the block: they are content,
+			// so the whitespace before them is neither leading nor trailing whitespace
+			if !reachedFirstNonWhitespace {
+				reachedFirstNonWhitespace = true
+				leadingWhitespaceToken = whitespaceCount
+			}
+			whitespaceCount = 0
+		}
 		switch next {
 		case runes.SPACE, runes.TAB, runes.CARRIAGERETURN, runes.LINETERMINATOR:
 			escaped = false
@@ -367,7 +376,13 @@ func (l *Lexer) readBlockString(tok *token.Token) {
 			return
 		case runes.QUOTE:
 			if escaped {
+				// an escaped quote is content
 				escaped = !escaped
+				if !reachedFirstNonWhitespace {
+					reachedFirstNonWhitespace = true
+					leadingWhitespaceToken = whitespaceCount
+				}
+				whitespaceCount = 0
 				continue
 			}
 
